@@ -15,6 +15,8 @@ verus! {
 pub type TargetDescription = HashMap<HashAlgorithm, HashValue>;
 //@take src/crypto.rs enum:HashAlgorithm drop_derives=Debug,Clone,PartialOrd,Ord
 //@take src/crypto.rs struct:HashValue drop_derives=Clone
+impl std::fmt::Debug for HashAlgorithm { #[verifier::external_body] fn fmt(&self, f: &mut std::fmt::Formatter) -> std::fmt::Result { unimplemented!() } }
+impl std::fmt::Debug for HashValue { #[verifier::external_body] fn fmt(&self, f: &mut std::fmt::Formatter) -> std::fmt::Result { unimplemented!() } }
 //@take src/models/helpers.rs struct:VirtualTargetPath drop_derives=Debug,Clone
 impl Clone for VirtualTargetPath { #[verifier::external_body] fn clone(&self) -> (r: Self) ensures r == *self { unimplemented!() } }
 impl std::fmt::Debug for VirtualTargetPath { #[verifier::external_body] fn fmt(&self, f: &mut std::fmt::Formatter) -> std::fmt::Result { unimplemented!() } }
@@ -36,7 +38,15 @@ pub open spec fn rule_pattern(r: ArtifactRule) -> VirtualTargetPath {
 #[verifier::external_body] pub struct Command { _opaque: u8 }
 //@take src/models/link/metadata.rs struct:LinkMetadata drop_derives=Debug,Clone,PartialEq,Eq
 pub type ArtifactMap = BTreeMap<VirtualTargetPath, TargetDescription>;
-//@take src/models/layout/supply_chain_item.rs trait:SupplyChainItem
+// the trait declaration of src/models/layout/supply_chain_item.rs with ghost views of its accessors
+pub trait SupplyChainItem {
+    spec fn name_v(&self) -> Seq<char>;
+    spec fn mats_v(&self) -> Seq<ArtifactRule>;
+    spec fn prods_v(&self) -> Seq<ArtifactRule>;
+    fn name(&self) -> (r: &str) ensures r@ == self.name_v();
+    fn expected_materials(&self) -> (r: &Vec<ArtifactRule>) ensures r@ == self.mats_v();
+    fn expected_products(&self) -> (r: &Vec<ArtifactRule>) ensures r@ == self.prods_v();
+}
 //@include prelude/rulelib_stubs.rs
 
 // ---- the specification's rule algorithm (written from the in-toto spec 4.4 / property C03) ----
@@ -82,22 +92,24 @@ pub uninterp spec fn canon_of(p: VirtualTargetPath) -> Option<VirtualTargetPath>
 // D32: `M.iter().filter_map(|(path, _)| canonicalize_path(path)).collect::<BTreeSet<_>>()`
 #[verifier::external_body]
 fn canon_paths(m: &ArtifactMap) -> (r: BTreeSet<VirtualTargetPath>)
-    ensures forall|x: VirtualTargetPath| #[trigger] r@.contains(x) <==> exists|k: VirtualTargetPath| m@.contains_key(k) && canon_of(k) == Some(x)
+    ensures r@ == canon_set(m@)
 { unimplemented!() }
 // D33: `A.intersection(&B).cloned().filter_map(F).collect()`
+pub open spec fn fmap_ret<F: FnMut(VirtualTargetPath) -> Option<VirtualTargetPath>>(f: F, x: VirtualTargetPath) -> Option<VirtualTargetPath> { choose|o: Option<VirtualTargetPath>| f.ensures((x,), o) }
 #[verifier::external_body]
 fn btreeset_intersection_filter_map<F: FnMut(VirtualTargetPath) -> Option<VirtualTargetPath>>(a: &BTreeSet<VirtualTargetPath>, b: &BTreeSet<VirtualTargetPath>, f: F) -> (r: BTreeSet<VirtualTargetPath>)
     requires forall|x: VirtualTargetPath| #[trigger] f.requires((x,)),
-    ensures forall|y: VirtualTargetPath| #[trigger] r@.contains(y) <==> exists|x: VirtualTargetPath| a@.contains(x) && b@.contains(x) && f.ensures((x,), Some(y)),
+             forall|x: VirtualTargetPath, o1: Option<VirtualTargetPath>, o2: Option<VirtualTargetPath>| f.ensures((x,), o1) && f.ensures((x,), o2) ==> o1 == o2,
+    ensures forall|x: VirtualTargetPath| #![trigger a@.contains(x), b@.contains(x)] #![trigger fmap_ret(f, x)] a@.contains(x) && b@.contains(x) ==> f.ensures((x,), fmap_ret(f, x)),
+            forall|y: VirtualTargetPath| #[trigger] r@.contains(y) <==> exists|x: VirtualTargetPath| a@.contains(x) && b@.contains(x) && #[trigger] fmap_ret(f, x) == Some(y),
 { unimplemented!() }
 // a path whose recorded material and product entries differ (raw maps, looked up by the cleaned path)
 pub open spec fn entry_differs(l: LinkMetadata, name: VirtualTargetPath) -> bool {
     (if l.materials@.contains_key(name) { Some(l.materials@[name]) } else { None::<TargetDescription> })
     != (if l.products@.contains_key(name) { Some(l.products@[name]) } else { None::<TargetDescription> })
 }
-pub open spec fn canon_set(m: Map<VirtualTargetPath, TargetDescription>) -> Set<VirtualTargetPath> {
-    m.dom().filter(|k: VirtualTargetPath| canon_of(k) is Some).map(|k: VirtualTargetPath| canon_of(k)->0)
-}
+// the cleaned paths of the artifacts recorded in a link (meaning: canonicalize_path over the map's keys)
+pub uninterp spec fn canon_set(m: Map<VirtualTargetPath, TargetDescription>) -> Set<VirtualTargetPath>;
 // the context of one pass (materials or products) of an item
 pub open spec fn pass_ctx(l: LinkMetadata, artifacts: Map<VirtualTargetPath, TargetDescription>, links: Map<String, LinkMetadata>) -> RuleCtx {
     let m = canon_set(l.materials@);
@@ -118,11 +130,25 @@ pub open spec fn item_verdict(name: Seq<char>, mats: Seq<ArtifactRule>, prods: S
     ensures r@ == match_consumed(*rule, src_artifacts@, src_artifact_queue@, items_metadata@),
 //@end
 // the SupplyChainItem accessors as ghost views (trait objects)
-pub uninterp spec fn item_name(i: &Box<dyn SupplyChainItem>) -> Seq<char>;
-pub uninterp spec fn item_mats(i: &Box<dyn SupplyChainItem>) -> Seq<ArtifactRule>;
-pub uninterp spec fn item_prods(i: &Box<dyn SupplyChainItem>) -> Seq<ArtifactRule>;
+pub open spec fn item_name(i: &Box<dyn SupplyChainItem>) -> Seq<char> { (**i).name_v() }
+pub open spec fn item_mats(i: &Box<dyn SupplyChainItem>) -> Seq<ArtifactRule> { (**i).mats_v() }
+pub open spec fn item_prods(i: &Box<dyn SupplyChainItem>) -> Seq<ArtifactRule> { (**i).prods_v() }
+// assumed: `==` / `!=` on a target description (HashMap<HashAlgorithm, HashValue>) is structural equality
+#[verifier::external_body]
+pub proof fn fact_target_description_eq()
+    ensures <TargetDescription as vstd::std_specs::cmp::PartialEqSpec>::obeys_eq_spec(),
+            forall|a: TargetDescription, b: TargetDescription| #[trigger] vstd::std_specs::cmp::PartialEqSpec::eq_spec(&a, &b) == (a == b),
+{}
 
+proof fn lemma_rules_none(rules: Seq<ArtifactRule>, n: int, m: int, q0: Set<VirtualTargetPath>, c: RuleCtx)   // [C03]
+    requires 0 <= n <= m, rules_upto(rules, n, q0, c) is None
+    ensures rules_upto(rules, m, q0, c) is None
+    decreases m - n
+{
+    if n < m { lemma_rules_none(rules, n, m - 1, q0, c); }
+}
 //@extract src/rulelib.rs fn:apply_rules_on_link props=C03,C14
+//@hoist VerificationDataList
 //@subst D32 /src_link\s*\.materials\s*\.iter\(\)\s*\.filter_map\(\|\(path, _\)\| canonicalize_path\(path\)\)\s*\.collect\(\)/ => canon_paths(&src_link.materials)
 //@subst D32 /src_link\s*\.products\s*\.iter\(\)\s*\.filter_map\(\|\(path, _\)\| canonicalize_path\(path\)\)\s*\.collect\(\)/ => canon_paths(&src_link.products)
 //@subst D33 /material_paths\s*\.intersection\(&product_paths\)\s*\.cloned\(\)\s*\.filter_map\(\|name\| (\{.*?\n        \})\)\s*\.collect\(\)/ => btreeset_intersection_filter_map(&material_paths, &product_paths, |name: VirtualTargetPath| -> (o: Option<VirtualTargetPath>) ensures o == (if entry_differs(*src_link, name) { Some(name) } else { None::<VirtualTargetPath> }) \1)
@@ -130,6 +156,136 @@ pub uninterp spec fn item_prods(i: &Box<dyn SupplyChainItem>) -> Seq<ArtifactRul
 //@subst D30 /(\w+)\s*\.(intersection|difference)\(&(\w+)\)\s*\.cloned\(\)\s*\.collect\(\)/ => btreeset_\2_cloned(&\1, &\3) count=6
 //@contract ret=r
     ensures r is Ok <==> item_verdict(item_name(item), item_mats(item), item_prods(item), reduced_link_files@),   // [C03]
+//@before /let item_name = item\.name\(\);/
+    proof { fact_string_ext(); fact_vtp_ext(); fact_target_description_eq(); }
+    let ghost links = reduced_link_files@;
+    let ghost mats = item_mats(item);
+    let ghost prods = item_prods(item);
+//@before /materials of this link/
+    let ghost l = *src_link;
+    let ghost qm = canon_set(l.materials@);
+    let ghost qp = canon_set(l.products@);
+    let ghost cm = pass_ctx(l, l.materials@, links);
+    let ghost cp = pass_ctx(l, l.products@, links);
+    assert(exists|key: String| key@ == item_name@ && links.contains_key(key) && links[key] == l);
+//@before /let list = \[/
+    assert forall|y: VirtualTargetPath| modified@.contains(y) <==> (qm.contains(y) && qp.contains(y) && entry_differs(l, y)) by {
+        if qm.contains(y) && qp.contains(y) && entry_differs(l, y) {
+            assert(material_paths@.contains(y) && product_paths@.contains(y));
+        }
+    }
+    assert(modified@ =~= qm.intersect(qp).filter(|x: VirtualTargetPath| entry_differs(l, x)));
+    assert(created@ == cm.created && deleted@ == cm.deleted && modified@ == cm.modified);
+//@before /for verification_data in list/
+    let ghost vd0 = list@[0];
+    let ghost vd1 = list@[1];
+//@loop 1 iter=it1
+        invariant
+            forall|a: String, b: String| #![trigger a@, b@] a@ == b@ ==> a == b,
+            forall|a: VirtualTargetPath, b: VirtualTargetPath| #![trigger a.text(), b.text()] a.text() == b.text() ==> a == b,
+            vstd::std_specs::btree::key_obeys_cmp_spec::<VirtualTargetPath>(),
+            it1.seq().len() == 2 && it1.seq()[0] == vd0 && it1.seq()[1] == vd1,
+            vd0.rules@ == mats && vd0.artifacts@ == l.materials@ && vd0.artifact_paths@ == qm,
+            vd1.rules@ == prods && vd1.artifacts@ == l.products@ && vd1.artifact_paths@ == qp,
+            created@ == cm.created && deleted@ == cm.deleted && modified@ == cm.modified,
+            cm == pass_ctx(l, l.materials@, links) && cp == pass_ctx(l, l.products@, links),
+            qm == canon_set(l.materials@) && qp == canon_set(l.products@),
+            links == reduced_link_files@,
+            exists|key: String| key@ == item_name@ && links.contains_key(key) && links[key] == l,
+            item_name@ == crate::item_name(item) && mats == item_mats(item) && prods == item_prods(item),
+            it1.index() >= 1 ==> rules_upto(mats, mats.len() as int, qm, cm) is Some,
+            it1.index() >= 2 ==> rules_upto(prods, prods.len() as int, qp, cp) is Some,
+//@after /let artifacts = verification_data\.artifacts;/
+        let ghost rs = rules@;
+        let ghost q0 = queue@;
+        let ghost c = if it1.index() == 0 { cm } else { cp };
+        assert(it1.index() == 0 ==> rs == mats && q0 == qm && artifacts@ == l.materials@);
+        assert(it1.index() == 1 ==> rs == prods && q0 == qp && artifacts@ == l.products@);
+//@loop 2 iter=it2
+            invariant
+                forall|a: String, b: String| #![trigger a@, b@] a@ == b@ ==> a == b,
+                forall|a: VirtualTargetPath, b: VirtualTargetPath| #![trigger a.text(), b.text()] a.text() == b.text() ==> a == b,
+                vstd::std_specs::btree::key_obeys_cmp_spec::<VirtualTargetPath>(),
+                it2.seq().len() == rs.len(),
+                forall|i: int| 0 <= i < rs.len() ==> *(#[trigger] it2.seq()[i]) == rs[i],
+                created@ == c.created && deleted@ == c.deleted && modified@ == c.modified,
+                artifacts@ == c.artifacts && reduced_link_files@ == c.links,
+                rules_upto(rs, it2.index() as int, q0, c) == Some(queue@),
+                it1.index() == 0 || it1.index() == 1,
+                it1.index() == 0 ==> rs == mats && q0 == qm && c == cm,
+                it1.index() == 1 ==> rs == prods && q0 == qp && c == cp && rules_upto(mats, mats.len() as int, qm, cm) is Some,
+                exists|key: String| key@ == item_name@ && links.contains_key(key) && links[key] == l,
+                item_name@ == crate::item_name(item) && mats == item_mats(item) && prods == item_prods(item),
+                cm == pass_ctx(l, l.materials@, links) && cp == pass_ctx(l, l.products@, links),
+                qm == canon_set(l.materials@) && qp == canon_set(l.products@),
+                links == reduced_link_files@,
+//@loop 3 iter=it3
+                        invariant
+                            vstd::std_specs::btree::key_obeys_cmp_spec::<VirtualTargetPath>(),
+                            *pattern == rule_pattern(*rule),
+                            rule is Disallow && *rule == rs[it2.index() as int] && 0 <= it2.index() < rs.len(),
+                            rules_upto(rs, it2.index() as int, q0, c) == Some(queue@),
+                            it1.index() == 0 || it1.index() == 1,
+                            it1.index() == 0 ==> rs == mats && q0 == qm && c == cm,
+                            it1.index() == 1 ==> rs == prods && q0 == qp && c == cp,
+                            forall|a: String, b: String| #![trigger a@, b@] a@ == b@ ==> a == b,
+                            exists|key: String| key@ == item_name@ && links.contains_key(key) && links[key] == l,
+                            item_name@ == crate::item_name(item) && mats == item_mats(item) && prods == item_prods(item),
+                            cm == pass_ctx(l, l.materials@, links) && cp == pass_ctx(l, l.products@, links),
+                            qm == canon_set(l.materials@) && qp == canon_set(l.products@),
+                            links == reduced_link_files@,
+                            forall|q: VirtualTargetPath| queue@.contains(q) ==> exists|j: int| 0 <= j < it3.seq().len() && *(#[trigger] it3.seq()[j]) == q,
+                            forall|j: int| 0 <= j < it3.index() ==> glob_ok(pattern.text(), (#[trigger] it3.seq()[j]).text()) is Some,
+//@before /return Err\(Error::ArtifactRuleError\(format!\(/ nth=1
+                    proof {
+                        let idx = it2.index() as int;
+                        assert(rule_step(rs[idx], queue@, c) is None);
+                        assert(rules_upto(rs, idx + 1, q0, c) is None);
+                        lemma_rules_none(rs, idx + 1, rs.len() as int, q0, c);
+                        assert(it1.index() == 0 ==> rules_upto(mats, mats.len() as int, qm, cm) is None);
+                        assert(it1.index() == 1 ==> rules_upto(prods, prods.len() as int, qp, cp) is None);
+                    }
+//@before /return Err\(Error::ArtifactRuleError\(format!\(/ nth=2
+                    proof {
+                        let idx = it2.index() as int;
+                        assert(filtered@ =~= filtered_by(*rule, queue@));
+                        assert(filtered_by(*rule, queue@).len() > 0);
+                        assert(rule_step(rs[idx], queue@, c) is None);
+                        assert(rules_upto(rs, idx + 1, q0, c) is None);
+                        lemma_rules_none(rs, idx + 1, rs.len() as int, q0, c);
+                        assert(it1.index() == 0 ==> rules_upto(mats, mats.len() as int, qm, cm) is None);
+                        assert(it1.index() == 1 ==> rules_upto(prods, prods.len() as int, qp, cp) is None);
+                    }
+//@before /path\.matches\(pattern\.value\(\)\)\?;/
+                        proof {
+                            if glob_ok(pattern.text(), path.text()) is None {
+                                let idx = it2.index() as int;
+                                assert(queue@.contains(*path));
+                                assert(rule_step(rs[idx], queue@, c) is None);
+                                assert(rules_upto(rs, idx, q0, c) == Some(queue@));
+                                assert(rules_upto(rs, idx + 1, q0, c) == rule_step(rs[idx], queue@, c));
+                                assert(rules_upto(rs, idx + 1, q0, c) is None);
+                                lemma_rules_none(rs, idx + 1, rs.len() as int, q0, c);
+                                assert(it1.index() == 0 ==> rules_upto(mats, mats.len() as int, qm, cm) is None);
+                                assert(it1.index() == 1 ==> rules_upto(prods, prods.len() as int, qp, cp) is None);
+                            }
+                        }
+//@before /let consumed = match rule \{/
+            let ghost qold = queue@;
+            assert(*rule == rs[it2.index() as int]);
+            assert(filtered@ =~= filtered_by(*rule, qold));
+//@before /queue = btreeset_difference_cloned\(&queue, &consumed\);/
+            assert(rule is Create ==> consumed@ =~= filtered_by(*rule, qold).intersect(c.created));
+            assert(rule is Delete ==> consumed@ =~= filtered_by(*rule, qold).intersect(c.deleted));
+            assert(rule is Modify ==> consumed@ =~= filtered_by(*rule, qold).intersect(c.modified));
+            assert(rule is Allow ==> consumed@ =~= filtered_by(*rule, qold));
+            assert(rule is Require ==> consumed@ =~= Set::<VirtualTargetPath>::empty() && qold.contains(rule_pattern(*rule)));
+            assert(rule is Disallow ==> consumed@ =~= Set::<VirtualTargetPath>::empty() && filtered_by(*rule, qold).len() == 0);
+            assert(rule is Disallow ==> !(exists|q: VirtualTargetPath| qold.contains(q) && glob_ok(rule_pattern(*rule).text(), q.text()) is None));
+            assert(rule is Match ==> consumed@ == match_consumed(*rule, c.artifacts, qold, c.links));
+//@after /queue = btreeset_difference_cloned\(&queue, &consumed\);/
+            assert(rule is Require || rule is Disallow ==> queue@ =~= qold);
+            assert(rule_step(*rule, qold, c) == Some(queue@));
 //@end
 } // verus!
 fn main() {}
